@@ -303,6 +303,11 @@ class Report:
         self.extra = {}
         self.assumptions = []
         self.distinct = set()
+        self.pending = []         # "cannot decide" reasons met while violations were still being collected
+
+    def undecided(self, why):
+        """a construct outside what a rule can decide: becomes exit 2 at the end unless definite violations were found"""
+        self.pending.append(why)
 
     def rule(self, rid, text, floor=1):
         self.rules.setdefault(rid, {"text": text, "floor": floor, "instances": 0, "violations": 0})
@@ -323,6 +328,8 @@ class Report:
         self.violations.append({"rule": rid, "instance": str(instance), "where": where, "what": what, "data": data})
 
     def finish(self, explanation, checker_cmd, trusted_base, exhaustive=False):
+        if self.pending and not self.violations:
+            raise AnalysisBroken(self.pending[0])
         known = [k for k in load_known() if k.get("property") == self.pid and k.get("status") == "open"]
         fresh = []
         for v in self.violations:
